@@ -237,6 +237,18 @@ func (t *tracer) trace(v ssa.Value, ctx []callCtx, depth int, prefix string) {
 			if n != nil {
 				tn = n.Obj().Name()
 			}
+			// a record type that only ever lives in locals and parameters (a cursor, a page of results, a pair of operands):
+			// field-based resolution – whatever any function of the package stores into this field
+			if n != nil && t.e.localRecord(n) {
+				sts := t.e.recordFieldStores(n, a.Field)
+				if len(sts) == 0 {
+					t.emit(prefix, "zero")
+				}
+				for _, st := range sts {
+					t.trace(st.Val, nil, depth+1, prefix)
+				}
+				return
+			}
 			// struct built locally: follow the store into this field
 			if al, ok := a.X.(*ssa.Alloc); ok {
 				found := false
@@ -769,5 +781,111 @@ func (t *tracer) structLiteralsOfCall(c *ssa.Call, idx int, ctx []callCtx, depth
 			out = append(out, t.structLiterals(rv[idx], append(append([]callCtx{}, ctx...), callCtx{c, g}), depth+1)...)
 		}
 	}
+	return out
+}
+
+// localRecord: an unexported struct type of one of the analysed packages that is never the type of a struct field, a
+// map/slice/array element, a channel element or a package-level variable: its values live in locals and parameters only,
+// so the stores into a field, taken over the whole package, are everything a load of that field can see.
+func (e *Engine) localRecord(n *types.Named) bool {
+	if e.localRec == nil {
+		e.localRec = map[*types.Named]bool{}
+		mentioned := map[*types.Named]bool{}
+		var mention func(t types.Type, d int)
+		mention = func(t types.Type, d int) {
+			if d > 6 {
+				return
+			}
+			switch x := t.(type) {
+			case *types.Named:
+				mentioned[x.Origin()] = true
+			case *types.Pointer:
+				mention(x.Elem(), d+1)
+			case *types.Slice:
+				mention(x.Elem(), d+1)
+			case *types.Array:
+				mention(x.Elem(), d+1)
+			case *types.Chan:
+				mention(x.Elem(), d+1)
+			case *types.Map:
+				mention(x.Key(), d+1)
+				mention(x.Elem(), d+1)
+			case *types.Struct:
+				for i := 0; i < x.NumFields(); i++ {
+					mention(x.Field(i).Type(), d+1)
+				}
+			}
+		}
+		var cands []*types.Named
+		for _, role := range sortedKeys(e.Pkgs) {
+			sc := e.Pkgs[role].Types.Scope()
+			for _, name := range sc.Names() {
+				switch o := sc.Lookup(name).(type) {
+				case *types.TypeName:
+					nt, ok := o.Type().(*types.Named)
+					if !ok {
+						continue
+					}
+					if st, isSt := nt.Underlying().(*types.Struct); isSt {
+						for i := 0; i < st.NumFields(); i++ {
+							mention(st.Field(i).Type(), 0)
+						}
+						if !o.Exported() {
+							cands = append(cands, nt)
+						}
+					} else {
+						mention(nt.Underlying(), 0)
+					}
+				case *types.Var:
+					mention(o.Type(), 0)
+				}
+			}
+		}
+		// values boxed into interfaces or captured by closures escape the simple picture too
+		boxed := map[*types.Named]bool{}
+		for _, fn := range e.all {
+			instrs(fn, func(in ssa.Instruction) {
+				if mi, ok := in.(*ssa.MakeInterface); ok {
+					if nt := namedOf(mi.X.Type()); nt != nil {
+						boxed[nt.Origin()] = true
+					}
+				}
+			})
+		}
+		for _, c := range cands {
+			if !mentioned[c] && !boxed[c] {
+				e.localRec[c] = true
+			}
+		}
+	}
+	return e.localRec[n.Origin()]
+}
+
+// recordFieldStores: every store into field idx of the record type n, in any function of the analysed packages.
+func (e *Engine) recordFieldStores(n *types.Named, idx int) []*ssa.Store {
+	key := fmt.Sprintf("%p|%d", n.Origin(), idx)
+	if e.recStores == nil {
+		e.recStores = map[string][]*ssa.Store{}
+	}
+	if r, ok := e.recStores[key]; ok {
+		return r
+	}
+	var out []*ssa.Store
+	for _, fn := range e.all {
+		instrs(fn, func(in ssa.Instruction) {
+			st, ok := in.(*ssa.Store)
+			if !ok {
+				return
+			}
+			fa, ok := st.Addr.(*ssa.FieldAddr)
+			if !ok || fa.Field != idx {
+				return
+			}
+			if nt := namedOf(fa.X.Type()); nt != nil && nt.Origin() == n.Origin() {
+				out = append(out, st)
+			}
+		})
+	}
+	e.recStores[key] = out
 	return out
 }
